@@ -96,20 +96,29 @@ def translate():
     return ok, " | ".join(msgs)
 
 
-TIE_DOWN = set()      # properties whose source tie (Ties/Cxx.lean) did not rebuild in this run
+TIE_DOWN = set()      # source-tie modules (Ties/Cxx*.lean) that did not rebuild in this run
+
+
+def tie_modules(prop):
+    """The property's source-tie modules: Ties/Cxx.lean and Ties/Cxx<Part>.lean (helper modules *Lemmas.lean are imported
+    by them, not audited on their own). Each is built, and may fail, independently of the others."""
+    d = os.path.join(LEAN, "Cpl", "Ties")
+    out = []
+    for f in sorted(os.listdir(d)) if os.path.isdir(d) else []:
+        if re.fullmatch(re.escape(prop) + r"([A-Z][A-Za-z0-9]*)?\.lean", f) and not f.endswith("Lemmas.lean"):
+            out.append("Cpl.Ties." + f[:-5])
+    return out
 
 
 def tie_module(prop):
-    return "Cpl.Ties." + prop if os.path.exists(os.path.join(LEAN, "Cpl", "Ties", prop + ".lean")) else None
+    ms = tie_modules(prop)
+    return " ".join(ms) if ms else None
 
 
 def prop_modules(prop):
     """Lean modules whose theorems are audited: Properties/Cxx (the property's obligations, about the hand model)
-    + Ties/Cxx (translated source = model) when it rebuilt in this run."""
-    mods = ["Cpl.Properties." + prop]
-    if tie_module(prop) and prop not in TIE_DOWN:
-        mods.append(tie_module(prop))
-    return mods
+    + the Ties/Cxx* modules (translated source = model) that rebuilt in this run."""
+    return ["Cpl.Properties." + prop] + [m for m in tie_modules(prop) if m not in TIE_DOWN]
 
 
 def lake_build(targets):
@@ -384,16 +393,17 @@ def run_property(prop, tier, seed, replay=None):
     #    the functions translated from /repo's source by py2lean equal the hand model for all inputs. The model is
     #    tied to the code twice for such properties (translation + correspondence); a tie proof that no longer
     #    goes through after a rewrite of the source leaves the correspondence tie, which every property has.
-    TIE_DOWN.discard(prop)
     tie_broken = None
-    if tie_module(prop):
-        t_ok, t_log = lake_build([tie_module(prop)])
+    for tm in tie_modules(prop):
+        TIE_DOWN.discard(tm)
+        t_ok, t_log = lake_build([tm])
         if not t_ok:
-            TIE_DOWN.add(prop)
+            TIE_DOWN.add(tm)
             errs = [l for l in t_log.splitlines() if l.startswith("error")]
-            tie_broken = "lake build %s failed (translator: %s): %s" % (
-                tie_module(prop), "; ".join(x for x in tr_msg.split("; ") if "untranslated" in x)[:400] or "all functions translated",
+            msg = "lake build %s failed (translator: %s): %s" % (
+                tm, "; ".join(x for x in tr_msg.split("; ") if "untranslated" in x)[:400] or "all functions translated",
                 " / ".join(errs[:4])[:600])
+            tie_broken = msg if tie_broken is None else tie_broken + " || " + msg
     b_ok, b_log = lake_build(prop_modules(prop) + ["driver"])
     aud = dict(obligations=0, discharged=0, axioms=[], theorems=[], failed=[], log="")
     if not b_ok:
